@@ -20,6 +20,12 @@ GRAMMARS = {
 }
 GRAMMARS['c18qb'] = 'grammar c18qb\nPair(x) = x >> x\nstart = Pair("a")\nA = Wrap("k")\nB = Wrap("k")\nWrap(x) = "(" >> x << ")"\n'
 GRAMMARS['c18qc'] = 'grammar c18qc extends c18qb\nignore /\\s+/\nTwice = Pair("a")\noverride start = Twice | B\n'
+# inline Python that builds a list, dict, set or tuple: a fresh object on every evaluation - one the grammar itself fills
+# (an accumulator) or one that ends up in the result, where the caller may edit it
+GRAMMARS['literals'] = ('class Call { name: /[a-z]+/; args: ("(" >> (/[a-z]+/ // ",") << ")") | `[]`; opts: `{}`; pair: `(1, [2])`; tags: `{"t"}` }\n'
+                        'start = Call+\nignore " "\n')
+GRAMMARS['accumulator'] = ('start = let seen = `[]` in Fresh(seen)*\nFresh(seen) = /[a-z]/ where `lambda w: w not in seen and not seen.append(w)`\n')
+GRAMMARS['counter'] = 'start = let box = `{"n": 0}` in (/[a-z]/ |> `lambda w: box.__setitem__("n", box["n"] + 1) or box["n"]`)*\n'
 REQUIRES = {'c18pc': ['c18pb'], 'c18qc': ['c18qb']}
 TEXTS = {
     'arith': ['1+2*3', '1 + ', '-4--5', '2*', '', '7', '1+2+3+4+5*6*7', ' 8 '],
@@ -29,6 +35,9 @@ TEXTS = {
     'templates': ['aa', '12', 'a1', '', 'aaa'],
     'ticking': ['ab', 'a1b', '', 'abc', '1', 'a!'],
 }
+TEXTS['literals'] = ['g', 'f(a,b)', 'g h', '', 'f(a) g', 'g(']
+TEXTS['accumulator'] = ['abc', 'aba', 'a', '', 'abcd', 'ba']
+TEXTS['counter'] = ['abc', 'a', '', 'ab']
 SHARED = ['abc123', 'ab1', '1ab', 'abc', '', '12', 'a-b']
 TEXTS['c18pb'] = SHARED
 TEXTS['c18pc'] = SHARED          # the very same text objects go to parent and child
@@ -53,6 +62,12 @@ def tamper(x, depth=0):
     elif isinstance(x, tuple):
         for y in x:
             tamper(y, depth + 1)
+    elif isinstance(x, dict):
+        for y in list(x.values()):
+            tamper(y, depth + 1)
+        x['tampered'] = 1
+    elif isinstance(x, set):
+        x.add('tampered')
     elif hasattr(x, '_fields'):
         for f in x._fields:
             tamper(getattr(x, f), depth + 1)
